@@ -382,6 +382,15 @@ func (h *termHook) OnWrite(ce *zapcore.CheckedEntry, _ []zapcore.Field) {
 }
 
 func replayC06(c *Ctx, b termBeh, child bool) (finds []Finding) {
+	if atomic.LoadInt32(&termHangs) >= 3 {
+		// logging calls have stopped returning on failing destinations: reported; every further case of that kind
+		// would only cost its watchdog time
+		for _, lf := range b.Leaves {
+			if lf.Fail {
+				return nil
+			}
+		}
+	}
 	add := func(key, f string, a ...interface{}) {
 		finds = append(finds, Finding{Key: key, What: fmt.Sprintf(f, a...)})
 	}
@@ -429,9 +438,7 @@ func replayC06(c *Ctx, b termBeh, child bool) (finds []Finding) {
 	select {
 	case <-callDone:
 	case <-time.After(10 * time.Second):
-		if atomic.AddInt32(&termHangs, 1) > 3 {
-			return finds
-		}
+		atomic.AddInt32(&termHangs, 1)
 		add("C06/terminal-not-run", "%s: the logging call neither returned nor panicked within 10 s\n%s", desc, zapStacks())
 		return finds
 	}
